@@ -197,6 +197,13 @@ func (ex *Exec) enumString(enum string, v Value) Value {
 
 // fmtArg renders one operand of a Sprintf-style verb as a string term.
 func (ex *Exec) fmtArg(verb byte, a Value, site string) *Term {
+	if verb == 'T' {
+		ia, ok := a.(Iface)
+		if !ok || ia.T == nil {
+			return mkStr("<nil>")
+		}
+		return mkStr(types.TypeString(ia.T, func(p *types.Package) string { return p.Name() }))
+	}
 	if ia, ok := a.(Iface); ok {
 		if ia.T == nil {
 			return mkStr("<nil>")
@@ -298,7 +305,7 @@ func (ex *Exec) sprintf(format string, va []Value, site string) Value {
 			panic(pathAbort{"unsupported: Sprintf flags " + spec + string(verb)})
 		}
 		switch verb {
-		case 's', 'v', 'd', 'q', 'x', 't':
+		case 's', 'v', 'd', 'q', 'x', 't', 'T':
 			parts = append(parts, ex.fmtArg(verb, a, site))
 		default:
 			panic(pathAbort{"unsupported: Sprintf verb " + string(verb)})
